@@ -406,7 +406,13 @@ class SourceMapBuilder:
         if op_offset in self._mappings:
             self._mappings[new_op_offset] = copy.copy(self._mappings[op_offset])
         if op_offset in self._mappings_macros:
-            self._mappings_macros[new_op_offset] = copy.copy(self._mappings_macros[op_offset])
+            macro_mapping = copy.copy(self._mappings_macros[op_offset])
+            # The new opcode is a later opcode of the same macro call: it doesn't carry the position of the call,
+            # and the call returns behind it.
+            macro_mapping.called_in = None
+            if macro_mapping.return_addr is not None and macro_mapping.return_addr <= new_op_offset:
+                macro_mapping.return_addr = new_op_offset + 1
+            self._mappings_macros[new_op_offset] = macro_mapping
         return self
 
     def add_position_mark(self, position_mark: SourceMapPositionMark) -> SourceMapBuilder:
